@@ -473,12 +473,14 @@ func c11Synthetic(c *report.Collector, tier string) {
 			}
 		}
 	}
-	inside, outside := synRange("o.tf", 0, 500), synRange("o.tf", 1000, 1500)
+	inside, outside := synRange("o.tf", 0, 1900), synRange("o.tf", 1950, 1990)
 	for _, ty := range []cty.Type{cty.String, cty.DynamicPseudoType} {
 		mk(nil, addrOf("self", "x"), ty, "", inside, nil, "local-inside")
 		mk(nil, addrOf("self", "x"), ty, "", outside, nil, "local-outside")
 		mk(addrOf("r", "x"), addrOf("self", "x"), ty, "sa", inside, nil, "both")
 		mk(nil, addrOf("count", "index"), ty, "", nil, nil, "local-unbounded")
+		// an absolute address longer than the local one (two-label block: aws.foo.settings vs self.settings)
+		mk(addrOf("w", "a", "x"), addrOf("self", "s"), ty, "", inside, nil, "both-absolute-longer")
 	}
 	// nested
 	mk(addrOf("n"), nil, cty.Object(map[string]cty.Type{"x": cty.String}), "sa", nil, reference.Targets{
@@ -487,7 +489,8 @@ func c11Synthetic(c *report.Collector, tier string) {
 	}, "nested")
 	// origins: address x constraint sets, each at its own place in o.tf
 	var origins []reference.LocalOrigin
-	oaddrs := []lang.Address{addrOf("r"), addrOf("r", "x"), addrOf("q", "x"), addrOf("r", "x", "y"), addrOf("r", "x", "y", "z"), addrOf("self", "x"), addrOf("count", "index"), addrOf("n", "x"), addrOf("n", "x", "y"), addrOf("zz")}
+	oaddrs := []lang.Address{addrOf("r"), addrOf("r", "x"), addrOf("q", "x"), addrOf("r", "x", "y"), addrOf("r", "x", "y", "z"), addrOf("self", "x"), addrOf("count", "index"), addrOf("n", "x"), addrOf("n", "x", "y"), addrOf("zz"),
+		addrOf("self", "s"), addrOf("self", "s", "name"), addrOf("self", "s", "name", "first"), addrOf("w", "a", "x"), addrOf("w", "a", "x", "name"), addrOf("w", "a", "x", "name", "first")}
 	consSets := []reference.OriginConstraints{nil, {{}}, {{OfType: cty.String}}, {{OfType: cty.Number}}, {{OfType: cty.DynamicPseudoType}}, {{OfScopeId: "sa"}}, {{OfScopeId: "sb", OfType: cty.String}},
 		{{OfScopeId: "sa"}, {OfType: cty.Number}}, {{OfType: cty.EmptyTuple}}}
 	j := 0
